@@ -37,10 +37,14 @@ class C16(Prop):
                 n = rng.randint(1, 6); m = rng.randint(2, 9); k = rng.randint(1, m)
             else:
                 n = m = rng.randint(2, 6); k = rng.randint(1, m)
-            kind = rng.choice(["unit", "skew", "ties", "zero", "straddle", "dictator"])
+            kind = rng.choice(["unit", "skew", "ties", "zero", "straddle", "dictator", "tiny"])
             if kind == "dictator":
                 P, V = E.gen_pair(rng, n, m, "unit", k)
                 V = [[x * (1e-6 if i2 else 1.0) for x in row] for i2, row in enumerate(V)]
+            elif kind == "tiny":      # the whole profile at a very small magnitude (absolute tolerances become visible)
+                P, V = E.gen_pair(rng, n, m, rng.choice(["unit", "skew"]), k)
+                sc = rng.choice([1e-9, 1e-12, 1e-15])
+                V = [[x * sc for x in row] for row in V]
             else:
                 P, V = E.gen_pair(rng, n, m, kind, k)
             if sum(map(sum, V)) <= 0: continue
